@@ -26,6 +26,7 @@ import (
 	"gitlab.com/yawning/obfs4.git/internal/verifkit/detrand"
 	"gitlab.com/yawning/obfs4.git/internal/verifkit/drive"
 	"gitlab.com/yawning/obfs4.git/internal/verifkit/ev"
+	"gitlab.com/yawning/obfs4.git/internal/verifkit/refdist"
 	"gitlab.com/yawning/obfs4.git/internal/verifkit/refobfs4"
 	"gitlab.com/yawning/obfs4.git/internal/verifkit/wire"
 	"gitlab.com/yawning/obfs4.git/transports/obfs4/framing"
@@ -210,6 +211,36 @@ var (
 )
 
 // vfSpecialSeed returns the idx-th seed whose length table has the given property.
+// vfRejectionSeeds: stored seeds whose shuffle of 0..1448 passes through a
+// rejected draw of math/rand's Int31n (see C12).
+var (
+	vfRejOnce sync.Once
+	vfRej     [][]byte
+)
+
+func vfRejectionSeeds() [][]byte {
+	vfRejOnce.Do(func() {
+		raw, err := os.ReadFile(os.Getenv("VERIF_DIR") + "/corpus/c12_rejection_seeds.json")
+		if err != nil {
+			return
+		}
+		var hx []string
+		if json.Unmarshal(raw, &hx) != nil {
+			return
+		}
+		for _, h := range hx {
+			b := make([]byte, 24)
+			if len(h) == 48 {
+				for i := 0; i < 24; i++ {
+					fmt.Sscanf(h[2*i:2*i+2], "%02x", &b[i])
+				}
+				vfRej = append(vfRej, b)
+			}
+		}
+	})
+	return vfRej
+}
+
 func vfSpecialSeed(kind string, idx int, biased bool) []byte {
 	key := fmt.Sprint(kind, biased)
 	vfSpecialMu.Lock()
@@ -245,14 +276,28 @@ func vfC09Case(rt *rapid.T, c *ev.Collector) {
 	br.Biased = rapid.Bool().Draw(rt, "biased")
 	br.IAT = rapid.SampledFrom([]int{0, 0, 1, 2, 2}).Draw(rt, "iat")
 	var cls []string
-	seedClass := rapid.SampledFrom([]string{"uniform", "uniform", "has0", "has0", "small", "single", "has1448"}).Draw(rt, "seedClass")
+	seedClass := rapid.SampledFrom([]string{"uniform", "uniform", "has0", "has0", "small", "single", "has1448", "rejected-draw"}).Draw(rt, "seedClass")
 	if seedClass == "uniform" {
 		br.Seed = detrand.Bytes(rapid.Uint64().Draw(rt, "seed"), 24)
+	} else if seedClass == "rejected-draw" {
+		rs := vfRejectionSeeds()
+		if len(rs) == 0 {
+			rt.Fatalf("INFRA: corpus/c12_rejection_seeds.json missing")
+		}
+		br.Seed = append([]byte(nil), rs[rapid.IntRange(0, len(rs)-1).Draw(rt, "rejSeed")]...)
 	} else {
 		br.Seed = vfSpecialSeed(seedClass, rapid.IntRange(0, 7).Draw(rt, "specialIdx"), br.Biased)
 	}
 	serverTable := vfSeedTable(br.Seed, br.Biased)
 	serverFull := vfSeedDistFull(br.Seed, br.Biased)
+	// The table a seed denotes is deployed behaviour (bridge and client, possibly
+	// of different versions, derive it independently from the seed the bridge
+	// sends): it must be the one of the independent reference.
+	if ref := refdist.New(br.Seed, 0, vfSeg, br.Biased); fmt.Sprint(ref.Values) != fmt.Sprint(serverTable) {
+		rt.Fatalf("VIOL[c09-table-differs-from-deployed-mapping]: seed %x (biased=%v) gives the length table %v, the deployed seed -> table mapping gives %v", br.Seed, br.Biased, serverTable, ref.Values)
+	} else if ref.Rejections > 0 {
+		cls = append(cls, "seed-with-rejected-draw")
+	}
 	cls = append(cls, "e2e", "seed-"+seedClass, fmt.Sprintf("iat-%d", br.IAT))
 	realIsClient := rapid.Bool().Draw(rt, "realIsClient")
 	withhold := realIsClient && rapid.Bool().Draw(rt, "withholdSeedFrame")
@@ -461,7 +506,7 @@ func vfC09Case(rt *rapid.T, c *ev.Collector) {
 func TestVerifC09EndToEnd(t *testing.T) {
 	vfSetup(t)
 	c := ev.For("C09")
-	c.Rule("end-to-end: real client or real server (public factories) against the reference peer; generated seed (uniform, or pre-searched: table contains 0 / contains 1448 / has <= 3 entries / has one entry), IAT mode, bias flag, 1-5 writes of 0..6000 bytes (iat-mode 0: one in six up to 300000 bytes, incl. 32768 / 65536 / 131072 and neighbours); the live length table of the connection is read by reflection before each write; oracle on the logged wire writes: mode 0 one write per burst whose length is explained by some table value under the padding arithmetic, mode 1 additionally segments of exactly 1448 except the last, mode 2 every write is a non-zero table value (1448 when 0 is in the table); the reference peer opens every frame (<= 1448, payload intact); a client uses the server's table once the seed frame has been processed (half of the client cases withhold the seed frame first); a bridge keeps its own table when the client sends it a PRNG-seed packet (24 bytes, or 0 / 23 / 25); Write returns without panic; non-trivial = table with <= 3 entries or containing 0 or 1448, or a padding need of 1..21; fingerprint = seed, mode, sizes, randomness key")
+	c.Rule("end-to-end: real client or real server (public factories) against the reference peer; generated seed (uniform, or pre-searched: table contains 0 / contains 1448 / has <= 3 entries / has one entry / the shuffle passes through a rejected draw), whose table must equal the independent statement of the deployed seed -> table mapping (refdist), IAT mode, bias flag, 1-5 writes of 0..6000 bytes (iat-mode 0: one in six up to 300000 bytes, incl. 32768 / 65536 / 131072 and neighbours); the live length table of the connection is read by reflection before each write; oracle on the logged wire writes: mode 0 one write per burst whose length is explained by some table value under the padding arithmetic, mode 1 additionally segments of exactly 1448 except the last, mode 2 every write is a non-zero table value (1448 when 0 is in the table); the reference peer opens every frame (<= 1448, payload intact); a client uses the server's table once the seed frame has been processed (half of the client cases withhold the seed frame first); a bridge keeps its own table when the client sends it a PRNG-seed packet (24 bytes, or 0 / 23 / 25); Write returns without panic; non-trivial = table with <= 3 entries or containing 0 or 1448, or a padding need of 1..21; fingerprint = seed, mode, sizes, randomness key")
 	c.Floor("seed-has0/e2e", 0.15)
 	c.Floor("iat-2/e2e", 0.15)
 	c.Floor("iat-1/e2e", 0.10)
